@@ -18,6 +18,61 @@ OWN = {'call_bool': 'Bool', 'call_int': 'Int', 'call_float': 'Float', 'call_stri
 TYPE = 'object::Type'
 
 
+def error_variant(r, depth=0):
+    """variant of the object::Error a returned value carries (through Err(..), `?` residuals and aggregates), else None"""
+    if not isinstance(r, tuple) or not r or depth > 8:
+        return None
+    if r[0] == 'agg' and r[1] == 'object::Error':
+        return r[2]
+    if r[0] == 'agg' and r[2] == 'Ok':
+        return None
+    for x in r[1:]:
+        if isinstance(x, tuple):
+            if x and isinstance(x[0], str):
+                v = error_variant(x, depth + 1)
+                if v:
+                    return v
+            else:
+                for y in x:
+                    v = error_variant(y, depth + 1)
+                    if v:
+                        return v
+    return None
+
+
+def _is_args_len(x):
+    x = uncast(x)
+    if x[0] == 'unop' and x[1] == 'PtrMetadata':
+        a = uncast(x[2])
+    elif x[0] == 'call' and x[1] == 'core::slice::<impl [T]>::len' and x[2]:
+        a = uncast(x[2][0])
+    else:
+        return False
+    while a[0] in ('deref', 'ref', 'cast'):
+        if a[0] == 'ref':
+            return a[1] in ('_1', '_1.*')
+        a = a[1]
+    return a == ('local', 1)
+
+
+def arity_fact(p):
+    """'eq1' / 'ne1' / None: what the path has established about args.len()"""
+    for (what, val, b) in p.constraints:
+        if what[0] != 'switch':
+            continue
+        v = what[1]
+        if isinstance(v, tuple) and v[0] == 'binop' and v[1] in ('Ne', 'Eq'):
+            l, r = v[2], v[3]
+            if (_is_args_len(l) and int_of(r) == 1) or (_is_args_len(r) and int_of(l) == 1):
+                truth = True if val is None else bool(val)
+                return 'eq1' if truth == (v[1] == 'Eq') else 'ne1'
+        elif _is_args_len(v):
+            if val == 1:
+                return 'eq1'
+            return 'ne1'
+    return None
+
+
 def run(ctx, rep):
     F = ctx.facts()
     bt = tables.builtin_tables(ctx)
@@ -44,21 +99,25 @@ def run(ctx, rep):
         fn = F.fn('builtins::' + f)
         # R14.2
         if f != 'call_print':
-            guard_ok = False
-            arg_err = any(st['k'] == 'assign' and st['rv']['k'] == 'aggregate' and st['rv'].get('variant') == 'ArgumentError' for b, si, st in fn.stmts())
+            # every path that returns ArgumentError has established args.len() != 1, every other returning path (and hence every
+            # use of args[0]) has established args.len() == 1; spelled `if args.len() != 1`, a helper with `?`, or `[x] => ..`
             bc = [s for s in sites if s['fn'] == fn.path and s['what'] == 'Assert(BoundsCheck)']
-            allok = all(c05.discharge(F, s) is not None for s in bc)
-            # the first branch of the function is the arity test leading to Err(ArgumentError)
-            t0 = None
-            for b in fn.rpo():
-                t = fn.term(b)
-                if t['k'] == 'switch':
-                    t0 = (b, t)
-                    break
-            if t0:
-                c = psc.sym(fn, t0[1]['op'])
-                guard_ok = c[0] == 'binop' and c[1] in ('Ne', 'Eq') and psc.strip(c[2])[0] == 'len' and psc.strip(c[3]) == ('int', 1)
-            rep.ob(guard_ok and arg_err and allok and bc, 'R14.2', fn.path, 'arity guard', 'first test is args.len() != 1 -> ArgumentError; %d index sites on args all dominated by it' % len(bc), fn.loc())
+            allok = all(c05.verdict_for(ctx, s)[0] for s in bc)
+            n_arg_err = 0
+            bad_paths = []
+            for p in AbsInt(F, fn, max_paths=5000).run():
+                if p.exit != 'return':
+                    continue
+                ev = error_variant(simp(p.env.get('_0')))
+                fact = arity_fact(p)
+                if fact == 'ne1':
+                    n_arg_err += 1
+                    if ev != 'ArgumentError':
+                        bad_paths.append('a call with args.len() != 1 returns %s, not an ArgumentError' % (ev or 'a value'))
+                elif fact != 'eq1':
+                    bad_paths.append('a path returns %s without having tested args.len()' % (ev or 'a value'))
+            rep.ob(n_arg_err >= 1 and not bad_paths and allok, 'R14.2', fn.path, 'arity guard',
+                   'args.len() != 1 => ArgumentError, every other returning path established len == 1; %d bounds checks on args discharged%s' % (len(bc), ('; ' + bad_paths[0]) if bad_paths else ''), fn.loc())
         # R14.3 totality per type
         und = [s for s in sites if (s['fn'] == fn.path or s['fn'].startswith(fn.path + '::{closure')) and not c05.verdict_for(ctx, s)[0]]
         for ty in types:
